@@ -43,7 +43,13 @@ use tera_verif_harness::{catch, driver, quiet_panics, Env};
 mod evgen;
 
 const CHILD_FLAG: &str = "--child-pipe";
-const PROPERTY: &str = "C07";
+/// the property the check script runs this binary for: `C06` (registering never panics / hangs) or
+/// `C07` (rendering never panics); taken from the `--out` file name `<pid>.cpipe.<tier>.result.json`
+fn property() -> &'static str {
+    let out = out_path();
+    let base = std::path::Path::new(&out).file_name().map(|s| s.to_string_lossy().to_string()).unwrap_or_default();
+    if base.starts_with("C06.") { "C06" } else { "C07" }
+}
 const DEFAULT_SUFFIXES: [&str; 3] = [".html", ".htm", ".xml"];
 
 // ------------------------------------------------------------------------------ cases
@@ -123,7 +129,7 @@ fn default_suffixes() -> Vec<String> {
 }
 
 /// values of unexpected kinds / extremes (wire syntax)
-const ADV: [&str; 24] = [
+const ADV: [&str; 26] = [
     "U",
     "N",
     "B0",
@@ -147,6 +153,8 @@ const ADV: [&str; 24] = [
     "M0",
     "M1 s:62 U",
     "M2 s:62 S:3c3e s:63 s:3c3e",
+    "M2 i64:1 s:78 B1 s:79",
+    "M3 i64:-1 N s:6c6162656c s:6c u128:7 A0",
     "M2 s:62 M2 s:62 u128:340282366920938463463374607431768211455 s:63 M1 s:62 N s:63 A2 i64:-1 s:c3a9",
 ];
 
@@ -341,6 +349,43 @@ fn fixed_sets(rng: &mut Rng, n_adv: usize) -> Vec<Set> {
         ]),
         vec![e("lex1.html", None), e("lex2.html", None), e("lex3.html", None), e("lex4.html", None), e("lex5.html", None)],
     ));
+    // add-time rules: where `break` / `continue` / `block` / `extends` may stand, component
+    // signatures, one template per case (each must be refused or accepted on both sides)
+    {
+        let cases = [
+            "{% for x in c %}{% filter upper %}{% break %}{% endfilter %}{% endfor %}",
+            "{% for x in c %}{% set w %}{% continue %}{% endset %}{% endfor %}",
+            "{% for x in c %}{% if x %}{% break %}{% else %}{% continue %}{% endif %}{{ x }}{% endfor %}",
+            "{% for x in c %}{{ x }}{% else %}{% break %}{% endfor %}",
+            "{% break %}",
+            "{% if a %}{% continue %}{% endif %}",
+            "{% for x in c %}{% block k %}{{ x }}{% endblock %}{% endfor %}",
+            "{% if a %}{% block k %}x{% endblock %}{% endif %}",
+            "{% filter upper %}{% block k %}x{% endblock %}{% endfilter %}",
+            "{% block k %}{% block k %}x{% endblock %}{% endblock %}",
+            "x{% extends \"p\" %}",
+            "{% component c(x: nosuchtype) %}{{ x }}{% endcomponent %}",
+            "{% component c(x: string = 1, y: integer = \"s\", z = [1, 2], m = {\"k\": 1}) %}{{ x }}{{ y }}{{ z }}{{ m }}{% endcomponent %}{{ <c/> }}",
+            "{% component c(x, x) %}{% endcomponent %}",
+            "{% component c(body) %}{% endcomponent %}",
+            "{% component c(a, ...rest) %}{{ rest }}{% endcomponent c %}{{ <c a={1} b={2} {...b}/> }}",
+            "{% component c() %}{% block k %}{% endblock %}{% endcomponent %}",
+            "{% component c() %}{% break %}{% endcomponent %}",
+            "{% for x in c %}{% <w> %}{% break %}{% </w> %}{% endfor %}{% component w() %}{{ body }}{% endcomponent %}",
+            "{{ a\u{2003}}}|{{\u{a0}b }}|{%\u{2003}if a %}x{% endif %}",
+            "{{ range(start=9223372036854775800, end=9223372036854775807, step_by=5) }}{{ range(end=3, step_by=0) }}",
+            "{{ range(start=0, end=10, step_by=4611686018427387904) | length }}",
+            "{% set_global g = 1 %}{% for x in [1, 2] %}{% set_global g = g + x %}{% endfor %}{{ g }}{% include \"nowhere\" %}",
+            "{{ a | nosuchfilter }}",
+            "{{ a is nosuchtest }}",
+            "{{ nosuchfn() }}",
+            "{{ <nosuchcomponent/> }}",
+            "{% component c() %}{{ 1 | nosuchfilter }}{% endcomponent %}",
+        ];
+        for (i, src) in cases.iter().enumerate() {
+            protos.push((vec![(format!("r{i}.html"), src.to_string())], vec![(format!("r{i}.html"), None)]));
+        }
+    }
     {
         let exprs = [
             "{\"k\": a, ...b, \"z\": 1}", "[1, ...c, a]", "[x * 2 for x in c if x]", "[k ~ v for k, v in b]",
@@ -474,7 +519,47 @@ fn registry_sets(rng: &mut Rng, n: usize) -> Vec<Set> {
             tp.probe = rng.chance(1, 2);
             tpls.push(tp);
         }
-        let templates: Vec<(String, String)> = tpls.iter().map(|tp| (tp.name.clone(), tp.source())).collect();
+        if chain {
+            // an include of a template of the chain from inside a block is the KNOWN finding F5b
+            // (render recursion through an inherited block): includes of a chain set go to a leaf
+            for tp in tpls.iter_mut() {
+                for b in tp.blocks.iter_mut() {
+                    if !b.includes.is_empty() {
+                        b.includes = vec!["leaf".to_string()];
+                    }
+                }
+                if !tp.top_includes.is_empty() {
+                    tp.top_includes = vec!["leaf".to_string()];
+                }
+                for c in tp.comps.iter_mut() {
+                    if !c.includes.is_empty() {
+                        c.includes = vec!["leaf".to_string()];
+                    }
+                }
+            }
+            let mut leaf = TplS::new("leaf");
+            leaf.tag = "L".into();
+            tpls.push(leaf);
+        }
+        let mut templates: Vec<(String, String)> = tpls.iter().map(|tp| (tp.name.clone(), tp.source())).collect();
+        {
+            // extends and include edges together form a cycle although neither kind does alone:
+            // the set is accepted and its render recurses without bound — the KNOWN finding F5b,
+            // exercised once below; do not spend the budget (and the culprit allowance) on it
+            let probe = Set { stream: String::new(), templates: templates.clone(), delims: D::default(), suffixes: vec![], prefixes: prefixes.clone(), entries: vec![], runs: vec![] };
+            if extends_include_cycle(&probe) && !graph_cycle(&probe, &["extends"]) && !graph_cycle(&probe, &["include"]) {
+                for tp in tpls.iter_mut() {
+                    tp.top_includes.clear();
+                    for b in tp.blocks.iter_mut() {
+                        b.includes.clear();
+                    }
+                    for c in tp.comps.iter_mut() {
+                        c.includes.clear();
+                    }
+                }
+                templates = tpls.iter().map(|tp| (tp.name.clone(), tp.source())).collect();
+            }
+        }
         let mut entries: Vec<(String, Option<String>)> = names.iter().map(|n| (n.clone(), None)).collect();
         for n in names.iter().take(2) {
             entries.push((n.clone(), Some("k".into())));
@@ -486,6 +571,51 @@ fn registry_sets(rng: &mut Rng, n: usize) -> Vec<Set> {
         out.push(Set { stream: format!("registry.{}", if chain { "chain" } else if use_prefix { "prefixes" } else { "plain" }), templates, delims: D::default(), suffixes: if i % 2 == 0 { default_suffixes() } else { on_off("on") }, prefixes, entries, runs });
     }
     out
+}
+
+/// the F5b shape (known finding): following `extends` and `include` edges together leads back to a
+/// template — an accepted set whose render can recurse without bound (`finalize_templates` only
+/// refuses cycles of includes alone and cycles of extends alone)
+fn extends_include_cycle(set: &Set) -> bool {
+    graph_cycle(set, &["extends", "include"])
+}
+
+/// a cycle in the graph of the given tag kinds (`extends` / `include`) over the templates of the set
+fn graph_cycle(set: &Set, kinds: &[&str]) -> bool {
+    let names: Vec<&str> = set.templates.iter().map(|(n, _)| n.as_str()).collect();
+    let resolve = |target: &str| -> Option<usize> {
+        names.iter().position(|n| *n == target).or_else(|| set.prefixes.iter().find_map(|p| names.iter().position(|n| *n == format!("{p}{target}"))))
+    };
+    let mut edges: Vec<Vec<usize>> = vec![Vec::new(); names.len()];
+    for (i, (_, src)) in set.templates.iter().enumerate() {
+        for kw in kinds.iter().copied() {
+            let mut rest = src.as_str();
+            while let Some(pos) = rest.find(kw) {
+                rest = &rest[pos + kw.len()..];
+                let t = rest.trim_start();
+                if let Some(q) = t.strip_prefix('"') {
+                    if let Some(end) = q.find('"') {
+                        if let Some(j) = resolve(&q[..end]) {
+                            edges[i].push(j);
+                        }
+                    }
+                }
+            }
+        }
+    }
+    // a cycle in the combined graph
+    fn dfs(v: usize, edges: &[Vec<usize>], state: &mut [u8]) -> bool {
+        state[v] = 1;
+        for &w in &edges[v] {
+            if state[w] == 1 || (state[w] == 0 && dfs(w, edges, state)) {
+                return true;
+            }
+        }
+        state[v] = 2;
+        false
+    }
+    let mut state = vec![0u8; names.len()];
+    (0..names.len()).any(|v| state[v] == 0 && dfs(v, &edges, &mut state))
 }
 
 fn walk(dir: &std::path::Path, out: &mut Vec<std::path::PathBuf>) {
@@ -579,6 +709,73 @@ fn repo_sets(report: &mut Report) -> Vec<Set> {
     out
 }
 
+/// whitespace-control variants of existing sets (default delimiters): `-` markers on tag starts and
+/// ends, ASCII / Unicode whitespace and line breaks around tags, comments with and without
+/// markers, raw blocks with every marker combination — what the whitespace filter and the raw /
+/// comment scanning of the lexer decide (C08), end to end
+fn wsmark_sets(rng: &mut Rng, base: &[Set], n: usize) -> Vec<Set> {
+    let mut out = Vec::new();
+    if base.is_empty() {
+        return out;
+    }
+    let ws = [" ", "\n", "\t ", "\u{2003}", "\u{a0}\n", "  \r\n", "\u{85}", " \u{c} "];
+    let comments = ["{# c #}", "{#- c -#}", "{#--#}", "{#-#}", "{# - #}", "{#- é -#}", "{# #}"];
+    let raws = ["{% raw %}R{% endraw %}", "{%- raw -%} R {{ y }} {%- endraw -%}", "{% raw -%}  R  {%- endraw %}", "{% raw %}{% endraw %}", "{%raw%} {% x %} {%endraw%}", "{% raw %} \u{2003}é {%- endraw %}"];
+    for _ in 0..n {
+        let mut s = base[rng.below(base.len())].clone();
+        if s.delims != D::default() {
+            continue;
+        }
+        s.stream = format!("wsmarks.{}", s.stream.split('.').next().unwrap_or(""));
+        for (_, src) in s.templates.iter_mut() {
+            let chars: Vec<char> = src.chars().collect();
+            let mut o = String::new();
+            let mut i = 0;
+            while i < chars.len() {
+                let two: String = chars[i..(i + 2).min(chars.len())].iter().collect();
+                if two == "{{" || two == "{%" {
+                    if rng.chance(1, 3) {
+                        o.push_str(*rng.pick(&ws));
+                    }
+                    if rng.chance(1, 8) {
+                        o.push_str(*rng.pick(&comments));
+                    }
+                    if rng.chance(1, 12) {
+                        o.push_str(*rng.pick(&raws));
+                    }
+                    if rng.chance(1, 4) {
+                        o.push_str(*rng.pick(&ws));
+                    }
+                    o.push_str(&two);
+                    if rng.chance(1, 4) && chars.get(i + 2) != Some(&'-') {
+                        o.push('-');
+                    }
+                    i += 2;
+                } else if two == "}}" || two == "%}" {
+                    if rng.chance(1, 4) && !o.ends_with('-') {
+                        o.push('-');
+                    }
+                    o.push_str(&two);
+                    if rng.chance(1, 3) {
+                        o.push_str(*rng.pick(&ws));
+                    }
+                    if rng.chance(1, 10) {
+                        o.push_str(*rng.pick(&comments));
+                    }
+                    i += 2;
+                } else {
+                    o.push(chars[i]);
+                    i += 1;
+                }
+            }
+            *src = o;
+        }
+        s.runs.truncate(3);
+        out.push(s);
+    }
+    out
+}
+
 /// truncations / deletions / duplications / delimiter injections of existing sets: what the add-time
 /// error paths (lexer errors, syntax errors, dangling references) see
 fn malformed_sets(rng: &mut Rng, base: &[Set], n: usize) -> Vec<Set> {
@@ -586,7 +783,7 @@ fn malformed_sets(rng: &mut Rng, base: &[Set], n: usize) -> Vec<Set> {
     if base.is_empty() {
         return out;
     }
-    let frags = ["{{", "}}", "{%", "%}", "{#", "#}", "\"", "'", "-", "{% raw %}", "{% endraw %}", "{% endif %}", "{% endfor %}", "(", "]", ".", "é", " ", "|", "1.", "99999999999999999999", "{% extends \"x\" %}", "{% include \"nowhere\" %}", "{{ super() }}", "{% break %}", "\\"];
+    let frags = ["{{", "}}", "{%", "%}", "{#", "#}", "\"", "'", "-", "{% raw %}", "{% endraw %}", "{% endif %}", "{% endfor %}", "(", "]", ".", "é", " ", "|", "1.", "99999999999999999999", "{% extends \"x\" %}", "{% include \"nowhere\" %}", "{{ super() }}", "{% break %}", "{% continue %}", "\u{2003}", "\u{a0}", "\u{85}", "{% filter upper %}", "{% endfilter %}", "{% set w %}", "{% endset %}", "\\"];
     for _ in 0..n {
         let mut s = base[rng.below(base.len())].clone();
         s.stream = format!("malformed.{}", s.stream.split('.').next().unwrap_or(""));
@@ -712,6 +909,16 @@ fn build_engine(set: &Set) -> Result<Tera, String> {
         Ok(r) => r,
         Err(p) => Err(format!("panic {}", p.replace('\n', " "))),
     }
+}
+
+/// registration of the set succeeds — asked of a child process (the set is one that did not come
+/// back: nothing about it may run in this process)
+fn real_accepts(set: &Set, id: usize) -> bool {
+    let mut item = set.to_json();
+    item["mode"] = serde_json::json!("addonly");
+    let b = Batch { common: serde_json::json!({"limit_secs": 150}), items: vec![item] };
+    let r = run_batch(CHILD_FLAG, 400_000 + id, &b, Duration::from_secs(170), 0);
+    r.results.first().map(|(_, lines)| lines.iter().any(|l| l == "A ok")).unwrap_or(false)
 }
 
 fn context_of(v: &[(String, String)]) -> Result<Context, String> {
@@ -855,6 +1062,9 @@ fn child_each(item: &serde_json::Value) -> Vec<String> {
         Ok(t) => t,
         Err(e) => return vec![format!("A {}", e.lines().next().unwrap_or(""))],
     };
+    if item["mode"].as_str() == Some("addonly") {
+        return vec!["A ok".to_string()];
+    }
     let env_wire = match catch(std::panic::AssertUnwindSafe(|| hooks::vm_env_wire(&tera))) {
         Ok(w) => w,
         Err(p) => return vec![format!("A hook-panic {p}")],
@@ -917,6 +1127,61 @@ fn show(o: &str) -> String {
     match o.strip_prefix("ok ") {
         Some(h) => format!("ok {:?}", String::from_utf8_lossy(&unhex(h).unwrap_or_default())),
         None => o.to_string(),
+    }
+}
+
+/// `str`'s `{:?}` (strings inside arrays / maps) escapes non-ASCII characters that are not printable
+/// (Unicode spaces such as U+00A0, U+2003, format characters …) as `\u{..}`; Model/Format.lean
+/// documents that it models `{:?}` only up to U+009F and prints everything above as is.  Rendered
+/// text with such escapes undone (any number of backslashes before `u{hex}`, value ≥ U+00A0), for
+/// telling that documented limit of the value-formatting model from a real disagreement.
+fn undo_debug_unicode_escapes(hex_text: &str) -> Option<String> {
+    let bytes = unhex(hex_text)?;
+    let text = String::from_utf8(bytes).ok()?;
+    let chars: Vec<char> = text.chars().collect();
+    let mut out = String::new();
+    let mut i = 0;
+    while i < chars.len() {
+        if chars[i] == '\\' {
+            let mut j = i;
+            while j < chars.len() && chars[j] == '\\' {
+                j += 1;
+            }
+            if j + 2 < chars.len() && chars[j] == 'u' && chars[j + 1] == '{' {
+                let mut k = j + 2;
+                let mut v: u32 = 0;
+                while k < chars.len() && chars[k].is_ascii_hexdigit() && k - (j + 2) < 6 {
+                    v = v * 16 + chars[k].to_digit(16).unwrap_or(0);
+                    k += 1;
+                }
+                if k < chars.len() && chars[k] == '}' && k > j + 2 && v >= 0xa0 {
+                    if let Some(c) = char::from_u32(v) {
+                        out.push(c);
+                        i = k + 1;
+                        continue;
+                    }
+                }
+            }
+            for _ in i..j {
+                out.push('\\');
+            }
+            i = j;
+        } else {
+            out.push(chars[i]);
+            i += 1;
+        }
+    }
+    Some(out)
+}
+
+/// equal once the `\u{..}` escapes of non-printable non-ASCII characters are undone on both sides
+fn agree_modulo_debug_escapes(real: &str, model: &str) -> bool {
+    match (real.strip_prefix("ok "), model.strip_prefix("ok ")) {
+        (Some(r), Some(m)) => match (undo_debug_unicode_escapes(r), undo_debug_unicode_escapes(m)) {
+            (Some(a), Some(b)) => a == b && r != m,
+            _ => false,
+        },
+        _ => false,
     }
 }
 
@@ -1070,9 +1335,37 @@ fn localise(set: &Set, exe: &std::path::Path, id: usize) -> Located {
     Located { stage: "after-compile".into(), detail: String::new(), tolerated_kwargs: multi_kwargs }
 }
 
+/// the distinct chunks (`CH n:<name> I<k> <instr>*k`) of an environment wire
+fn chunk_set(env: &str) -> std::collections::BTreeSet<String> {
+    let w: Vec<&str> = env.split_whitespace().collect();
+    let mut out = std::collections::BTreeSet::new();
+    let mut i = 0;
+    while i < w.len() {
+        if w[i] == "CH" && i + 2 < w.len() {
+            let k: usize = w[i + 2].strip_prefix('I').and_then(|n| n.parse().ok()).unwrap_or(0);
+            let end = (i + 3 + k).min(w.len());
+            out.insert(w[i..end].join(" "));
+            i = end;
+        } else {
+            i += 1;
+        }
+    }
+    out
+}
+
+/// raw chunks agree but the environments differ: the optimiser (some stored chunk differs) or
+/// finalize (same chunks, different parents / lineage / tables / flags)
+fn after_compile_stage(real_env: &str, model_env: &str) -> &'static str {
+    if chunk_set(real_env) != chunk_set(model_env) {
+        "optimiser (a stored chunk differs; raw chunks agree)"
+    } else {
+        "finalize (same stored chunks; parents / lineage / component table / flags differ)"
+    }
+}
+
 fn replay_json(set: &Set, stage: &str, real: &str, model: &str) -> serde_json::Value {
     serde_json::json!({
-        "property": PROPERTY,
+        "property": property(),
         "harness_bin": "cpipe",
         "detail": {"stage": stage},
         "case": set.to_json(),
@@ -1106,7 +1399,8 @@ fn replay_case(case: &serde_json::Value, exe: &std::path::Path, reg: &(Vec<Strin
                 }
             }
             let loc = localise(&set, exe, 0);
-            println!("stage localisation: {} {}", loc.stage, loc.detail);
+            let stage = if loc.stage == "after-compile" && real.env != model.env { after_compile_stage(&real.env, &model.env).to_string() } else { loc.stage.clone() };
+            println!("stage localisation: {stage} {}", loc.detail);
         }
     }
 }
@@ -1143,6 +1437,14 @@ fn main() {
     if let Some(i) = args.iter().position(|a| a == CHILD_FLAG) {
         child_main(&args[i + 1], &args[i + 2], 20, |_| (), |_, item| child_each(item));
     }
+    // the few engine calls of the parent (parsing a source that a child already parsed, to look
+    // for multi-kwarg calls) run on a generous stack
+    let h = std::thread::Builder::new().stack_size(1 << 30).spawn(parent_main).expect("spawn");
+    let _ = h.join();
+}
+
+fn parent_main() {
+    let args: Vec<String> = std::env::args().collect();
     let env = Env::from_env();
     let exe = driver::driver_path(&env.verif_dir, "drv_pipeline");
     let reg = builtin_names();
@@ -1153,7 +1455,7 @@ fn main() {
     }
     let t0 = Instant::now();
     let threads = std::thread::available_parallelism().map(|n| n.get()).unwrap_or(4).min(16);
-    let mut report = Report::new(PROPERTY);
+    let mut report = Report::new(property());
     report.rule = "a (template set, entry, context) that the whole-engine model took from SOURCE TEXT to a comparable render outcome (not `unmodelled`), or a set both sides refuse at add time".into();
     let mut rng = Rng::new(env.seed ^ 0x7069_7065);
 
@@ -1165,9 +1467,24 @@ fn main() {
     sets.extend(registry_sets(&mut rng, env.budget(3000, 40000)));
     sets.extend(bcgen_sets(&mut rng, env.budget(6, 30), env.budget(3000, 40000), env.budget(3, 6), env.budget(3, 8)));
     sets.extend(evgen_sets(&mut rng, env.budget(14000, 250000), env.budget(2, 5), &mut ev_hist));
-    let n_base = sets.len();
+    // the known finding F5b once (B: x{include A}; A extends B: x{super()}); it is a finding of C07
+    // / C11 (the RENDER does not come back; registering is fine), so not when run for C06
+    if property() != "C06" {
+    sets.push(Set {
+        stream: "known.F5b".into(),
+        templates: t(&[("B", "{% block x %}{% include \"A\" %}{% endblock %}"), ("A", "{% extends \"B\" %}{% block x %}{{ super() }}{% endblock %}")]),
+        delims: D::default(),
+        suffixes: default_suffixes(),
+        prefixes: vec![],
+        entries: vec![e("A", None)],
+        runs: vec![Run { ctx: vec![], global: vec![], kind: "empty".into() }],
+    });
+    }
+    let n_base = sets.len() - if property() != "C06" { 1 } else { 0 };
     let malformed = malformed_sets(&mut rng, &sets[..n_base], env.budget(12000, 200000));
+    let wsmarks = wsmark_sets(&mut rng, &sets[..n_base], env.budget(5000, 80000));
     sets.extend(malformed);
+    sets.extend(wsmarks);
     for s in &sets {
         report.count(&format!("sets.{}", s.stream.split('.').take(2).collect::<Vec<_>>().join(".")));
     }
@@ -1199,11 +1516,28 @@ fn main() {
         if r.results.is_empty() {
             report.oracle_checks += 1;
             report.oracle_failures += 1;
+            let known_f5b = extends_include_cycle(&sets[*si]) && real_accepts(&sets[*si], *si);
+            if known_f5b && property() == "C06" {
+                // registering succeeded; the render of this shape is C07's / C11's known finding
+                report.oracle_failures -= 1;
+                report.count("known.F5b.shape_seen_while_checking_C06");
+                continue;
+            }
             report.violation(
                 "property",
-                format!("registering / rendering did not come back ({why}; confirmed alone with a 150 s cap): {:?}", sets[*si].templates),
+                format!(
+                    "{}registering / rendering did not come back ({why}; confirmed alone with a 150 s cap): {:?}",
+                    if known_f5b { "F5b (accepted set with an extends+include cycle): " } else { "" },
+                    sets[*si].templates
+                ),
                 replay_json(&sets[*si], "real-engine", why, "-"),
             );
+            if known_f5b {
+                if let Some(v) = report.violations.last_mut() {
+                    v.known = Some("F5b".to_string());
+                }
+                report.count("known.F5b.reproduced");
+            }
         } else {
             report.count("sets.slow_under_load_only");
             real_of.insert(*si, parse_real(&r.results[0].1));
@@ -1310,6 +1644,10 @@ fn main() {
                 report.count("compare.error_class_differs_with_multi_kwargs_tolerated");
                 continue;
             }
+            if agree_modulo_debug_escapes(o, &mo) {
+                report.count("compare.agree_modulo_debug_escape_of_nonprintable_unicode(Format.lean_limit)");
+                continue;
+            }
             if *o == mo {
                 let key = format!("sampled.{stream2}");
                 if report.samples.len() < 12 && sample_count.get(&key).copied().unwrap_or(0) < 2 && (ri % 3 == 1 || o.starts_with("err")) {
@@ -1348,11 +1686,13 @@ fn main() {
             report.model_disagreements += 1;
         }
         reported += 1;
+        let model_env = parse_answer(&answers[order.iter().position(|x| x == si).unwrap_or(0)]).map(|m| m.env).unwrap_or_default();
         let stage = if loc.stage == "after-compile" {
             match what.as_str() {
-                "environment" => "optimiser / finalize (stored chunks, lineage, tables)".to_string(),
+                "environment" => after_compile_stage(&real_of[si].env, &model_env).to_string(),
                 "add-outcome" => "finalize (add-time outcome)".to_string(),
-                _ => "vm (render) — tokens, AST, raw chunks agree".to_string(),
+                _ if real_of[si].env != model_env && !set_has_multi_kwargs(set) => format!("{} — seen at render", after_compile_stage(&real_of[si].env, &model_env)),
+                _ => "vm (render) — tokens, AST, raw chunks, environment agree".to_string(),
             }
         } else {
             loc.stage.clone()
